@@ -197,3 +197,7 @@ Proof.
     - destruct (IH Hd) as (t0 & Ht0 & Hd0). exists t0. split; [now right|exact Hd0]. }
   destruct Hex as (t & Ht & Hdt). eapply decision_for_ok; eauto.
 Qed.
+
+Corollary c10_z3_at_most_one : forall ins fs a ds, gen_z3 ins = Ok fs -> sat fs a = true -> readback ins a = Ok ds ->
+  NoDup (map zt_id (i_tasks ins)) -> NoDup (map dec_task ds).
+Proof. intros ins fs a ds Hg Hs Hr Hnd. rewrite (c10_z3_one_decision_each _ _ _ _ Hg Hs Hr). exact Hnd. Qed.
